@@ -916,6 +916,8 @@ func (h *histRun) checkQuiescent(final bool) {
 				sig := "heldAfterDelete"
 				if h.hasNote("populate.deleted", c.CID, rid) {
 					sig = "heldAfterDelete.populateDeleted"
+				} else if h.hasNote("sub.unsend", c.CID, rid) {
+					sig = "heldAfterDelete.unsendRevived"
 				}
 				h.viol(Viol{Prop: "C01", Conn: c.Idx, T: now, RID: rid, Sig: sig,
 					Msg: fmt.Sprintf("client holds data of %s delivered at t=%d although the service deleted it and no delete event followed", rid, res.FromT)})
